@@ -63,7 +63,13 @@ func tsOf(kind byte) (uint64, bool) {
 func mkVal(kind byte, tag string) []byte {
 	ts, del := tsOf(kind)
 	if del {
-		return world.MakeHdr(ts, 1, 1, 0, nil)
+		// every other marker carries a header extension block (as written with header_extra_padding_block, or by a
+		// native application that uses extensions): markers are recognised by their flag, not by their length
+		next := 0
+		if len(tag) > 0 && tag[len(tag)-1]%2 == 0 {
+			next = 1
+		}
+		return world.MakeHdr(ts, 1, 1, next, nil)
 	}
 	return world.MakeHdr(ts, 1, 0, 0, []byte("v"+tag))
 }
